@@ -26,29 +26,44 @@ from reactivex.disposable import (
 from vlib import det
 from vlib.core import FAIL, OK, SKIP, HarnessError
 
+from vlib.values import Tagged
+
 KINDS = ("plain", "empty")
+HIST_KINDS = KINDS + ("reenter", "raises")  # single-thread histories only; composite also has "reenter-clear"
+
+
+class ItemRaise(Tagged):
+    """Raised by a 'raises' item from inside its dispose(), after counting the call."""
 
 
 class Plain(DisposableBase):
     """Counts dispose() calls; deliberately has no at-most-once guard of its own."""
 
-    def __init__(self, tag):
+    def __init__(self, tag, behave=None):
         self.tag = tag
         self.n = 0
         self.ctx = []  # harness context captured at each dispose (e.g. "in-scheduler")
+        self.behave = behave  # None | "reenter" | "reenter-clear" | "raises"
+        self.hook = None  # reenter: what the item calls from inside its own dispose() (set by the harness)
 
     def dispose(self):
         det.yield_point("item-dispose")
         self.n += 1
         self.ctx.append(_CTX[0])
         det.log("item", self.tag)
+        if self.behave == "raises":
+            raise ItemRaise("item:" + self.tag)
+        if self.behave and self.hook is not None and self.n <= 3:  # bounded: a missing once-guard shows as n == 4
+            self.hook()
 
     def __repr__(self):
-        return f"<{self.tag} n={self.n}>"
+        return f"<{self.tag}{'(' + self.behave + ')' if self.behave else ''} n={self.n}>"
 
 
 class Empty(CompositeDisposable):
     """An empty CompositeDisposable: a perfectly valid disposable whose truth value is False."""
+
+    behave = None
 
     def __init__(self, tag):
         super().__init__()
@@ -70,10 +85,16 @@ _CTX = [None]
 
 
 def make_item(kind, tag):
-    it = Plain(tag) if kind == "plain" else Empty(tag)
-    if kind == "empty" and bool(it):
-        raise HarnessError("Empty item is not falsy")
-    return it
+    if kind == "empty":
+        it = Empty(tag)
+        if bool(it):
+            raise HarnessError("Empty item is not falsy")
+        return it
+    if kind == "plain":
+        return Plain(tag)
+    if kind in ("reenter", "reenter-clear", "raises"):
+        return Plain(tag, kind)
+    raise HarnessError(f"bad item kind {kind}")
 
 
 CONTAINERS = {
@@ -104,7 +125,9 @@ def _items_for(cmds, init, foreign):
 def hist_container(case):
     """case = {"cls": composite|serial|single|multi, "init": [kinds] (composite ctor args), "ctor_list": bool,
     "foreign": [kinds], "cmds": [[op, arg]...]}  ops: add kind | remove ref | contains ref | clear | len |
-    dispose | assign kind | get.  ref is an index modulo the number of items of the case."""
+    dispose | assign kind | get.  ref is an index modulo the number of items of the case.
+    Item kinds: plain | empty (falsy) | reenter (its dispose() calls the container's dispose()) | reenter-clear
+    (composite: calls clear()) | raises (its dispose() raises ItemRaise after counting)."""
     cls, cmds = case["cls"], case["cmds"]
     init = case.get("init", []) if cls == "composite" else []
     items, slot = _items_for(cmds, init, case.get("foreign", []))
@@ -114,20 +137,43 @@ def hist_container(case):
         obj = CompositeDisposable(list(args)) if case.get("ctor_list") else CompositeDisposable(*args)
     else:
         obj = CONTAINERS[cls]()
+    for it in items:
+        if it.behave == "reenter":
+            it.hook = obj.dispose
+        elif it.behave == "reenter-clear":
+            it.hook = obj.clear if cls == "composite" else obj.dispose
     # model
     exp = [0] * len(items)  # promised dispose count; None = unconstrained (<=1)
-    held = list(range(n_init))  # composite: indices held, in order;  others: [cur] or []
-    disposed = False
+    st = {"held": list(range(n_init)), "disposed": False}  # composite: indices held in order; others: [cur] or []
     classes = set()
     nontrivial = False
+    uncertain = False  # an item raised from inside a container call: from then on only "at most once" is judged
+    flag_known = True  # is_disposed is only judged once a dispose() has RETURNED (not raised)
 
     def fail(clause, i, detail):
         return FAIL(f"{clause}|{cls}", f"step {i} {cmds[i] if i is not None and i < len(cmds) else ''}: {detail}; case={case}", classes=sorted(classes))
+
+    def promise(j, newly):
+        if exp[j] == 0:
+            exp[j] = 1
+            newly.append(j)
+
+    def model_dispose(newly):
+        for j in st["held"]:
+            promise(j, newly)
+        st["held"] = []
+        st["disposed"] = True
+
+    def model_clear(newly):
+        for j in st["held"]:
+            promise(j, newly)
+        st["held"] = []
 
     for i, c in enumerate(cmds):
         op = c[0]
         raised = None
         ret = None
+        before = [it.n for it in items]
         try:
             if op == "add":
                 ret = obj.add(items[slot[i]])
@@ -151,13 +197,24 @@ def hist_container(case):
             raise
         except Exception as e:  # noqa: BLE001
             raised = e
+        item_raised = isinstance(raised, ItemRaise)
+        if item_raised:
+            if not any(it.behave == "raises" and it.n > before[j] for j, it in enumerate(items)):
+                return fail("raised:ItemRaise", i, f"an item's exception surfaced although no raising item was disposed: {raised!r}")
+            classes.add("item-raised")
+            nontrivial = True
+            raised = None  # the model treats the call as carried out; what follows is only judged for "at most once"
+        held, disposed = st["held"], st["disposed"]
+        newly = []
         # ---- model step
         if op == "add":
             j = slot[i]
             if items[j].__class__ is Empty:
                 classes.add("falsy-item")
+            if items[j].behave:
+                classes.add(items[j].behave + "-item")
             if disposed:
-                exp[j] = 1
+                promise(j, newly)
                 classes.add("add-after-dispose")
                 nontrivial = True
             else:
@@ -167,41 +224,38 @@ def hist_container(case):
             want = (not disposed) and j in held
             if want:
                 held.remove(j)
-                exp[j] = 1
+                promise(j, newly)
                 nontrivial = True
                 classes.add("remove-held")
             else:
                 classes.add("remove-not-held")
-            if raised is None and bool(ret) != want:
+            if raised is None and not item_raised and not uncertain and bool(ret) != want:
                 return fail("remove-result", i, f"remove returned {ret!r}, model says {want}")
         elif op == "contains" and items:
             j = c[1] % len(items)
-            if raised is None and bool(ret) != (j in held):
+            if raised is None and not uncertain and bool(ret) != (j in held):
                 return fail("contains", i, f"contains returned {ret!r}, model holds {held}")
         elif op == "clear":
-            for j in held:
-                exp[j] = 1
             if held:
                 nontrivial = True
                 classes.add("clear-nonempty")
-            held = []
+            model_clear(newly)
         elif op == "len":
-            if raised is None and ret != len(held):
+            if raised is None and not uncertain and ret != len(held):
                 return fail("len", i, f"len {ret} != model {len(held)}")
         elif op == "dispose":
-            for j in held:
-                exp[j] = 1
             if held:
                 nontrivial = True
             if disposed:
                 classes.add("dispose-twice")
-            held = []
-            disposed = True
+            model_dispose(newly)
+            flag_known = not item_raised
         elif op == "assign":
             j = slot[i]
-            falsy = items[j].__class__ is Empty
-            if falsy:
+            if items[j].__class__ is Empty:
                 classes.add("falsy-item")
+            if items[j].behave:
+                classes.add(items[j].behave + "-item")
             if disposed:
                 classes.add("assign-after-dispose")
                 nontrivial = True
@@ -209,11 +263,11 @@ def hist_container(case):
                     exp[j] = None  # the text does not say whether a disposed SAD rejects; then it need not dispose
                     raised = None
                 else:
-                    exp[j] = 1
+                    promise(j, newly)
             elif cls == "single" and held:
                 classes.add("second-assign-live" + ("-after-falsy" if items[held[0]].__class__ is Empty else ""))
                 nontrivial = True
-                if raised is None:
+                if raised is None and not uncertain:
                     return fail("second-assign-accepted", i, f"second assignment to a live SingleAssignmentDisposable was accepted (held {items[held[0]]!r})")
                 raised = None
                 exp[j] = None
@@ -222,30 +276,54 @@ def hist_container(case):
                     nontrivial = True
                     classes.add("replace")
                     if cls == "serial":
-                        exp[held[0]] = 1
+                        promise(held[0], newly)
                     # multi: the replaced item is simply let go, not disposed
-                held = [j]
+                st["held"] = [j]
         elif op == "get":
-            if not disposed and raised is None:
+            if not disposed and raised is None and not uncertain:
                 want = items[held[0]] if held else None
                 if ret is not want:
                     return fail("get", i, f"disposable is {ret!r}, model {want!r}")
+        # ---- re-entrant items: being disposed for the first time makes them call back into the container
+        k = 0
+        while k < len(newly):
+            it = items[newly[k]]
+            k += 1
+            if it.behave == "reenter" or (it.behave == "reenter-clear" and cls != "composite"):
+                classes.add("reentered-dispose")
+                nontrivial = True
+                if not st["disposed"]:
+                    model_dispose(newly)
+            elif it.behave == "reenter-clear":
+                classes.add("reentered-clear")
+                nontrivial = True
+                model_clear(newly)
+        held, disposed = st["held"], st["disposed"]
         if raised is not None:
-            return fail(f"raised:{type(raised).__name__}", i, f"unexpected {raised!r}")
+            if uncertain:
+                raised = None
+            else:
+                return fail(f"raised:{type(raised).__name__}", i, f"unexpected {raised!r}")
+        if item_raised:
+            uncertain = True
         # ---- invariant after every step
         for j, it in enumerate(items):
-            if exp[j] is None:
-                if it.n > 1:
-                    return fail("disposed-more-than-once", i, f"{it!r}")
-            elif it.n != exp[j]:
-                if it.n > exp[j]:
-                    clause = "disposed-while-held" if (j in held and not disposed) else ("disposed-twice" if it.n > 1 else "disposed-unpromised")
-                else:
-                    clause = "not-disposed"
-                if it.__class__ is Empty:
-                    clause += ":falsy"
-                return fail(clause, i, f"{it!r} expected {exp[j]} (held={held}, disposed={disposed})")
-        if bool(obj.is_disposed) != disposed:
+            if it.n > 1:
+                clause = "disposed-twice" + (":falsy" if it.__class__ is Empty else "") + (":" + it.behave if it.behave else "")
+                return fail(clause, i, f"{it!r} (held={held}, disposed={disposed})")
+            if exp[j] is None or it.n == exp[j]:
+                continue
+            if uncertain:
+                exp[j] = None  # after an item raised the text promises nothing beyond "at most once"
+                continue
+            if it.n > exp[j]:
+                clause = "disposed-while-held" if (j in held and not disposed) else "disposed-unpromised"
+            else:
+                clause = "not-disposed"
+            if it.__class__ is Empty:
+                clause += ":falsy"
+            return fail(clause, i, f"{it!r} expected {exp[j]} (held={held}, disposed={disposed})")
+        if flag_known and not uncertain and bool(obj.is_disposed) != disposed:
             return fail("is_disposed", i, f"is_disposed={obj.is_disposed} model={disposed}")
     return OK(nontrivial, sorted(classes))
 
@@ -269,19 +347,31 @@ def hist_c25(case):
             count[0] += 1
             if mode == "reentrant" and count[0] < 5:
                 box["d"].dispose()
+            if mode == "raises":
+                raise ItemRaise("action")
 
         d = Disposable(None if mode == "none" else action)
         box["d"] = d
         called = 0
+        returned = 0  # dispose() calls that returned normally ("reports is_disposed once any dispose() returned")
         for i, c in enumerate(cmds):
             if c[0] == "dispose":
-                d.dispose()
                 called += 1
-                if d.is_disposed is not True:
-                    return fail("is_disposed-after-dispose", i, f"is_disposed={d.is_disposed!r}")
+                try:
+                    d.dispose()
+                    returned += 1
+                except ItemRaise:
+                    if mode != "raises" or count[0] == 0:
+                        raise
+                    classes.add("action-raised")
+                else:
+                    if d.is_disposed is not True:
+                        return fail("is_disposed-after-dispose", i, f"is_disposed={d.is_disposed!r}")
             elif c[0] == "read":
-                if bool(d.is_disposed) != (called > 0):
-                    return fail("is_disposed", i, f"is_disposed={d.is_disposed!r} after {called} dispose calls")
+                if called == 0 and d.is_disposed:
+                    return fail("is_disposed", i, "is_disposed before any dispose()")
+                if returned and d.is_disposed is not True:
+                    return fail("is_disposed", i, f"is_disposed={d.is_disposed!r} after {returned} dispose calls returned")
             want = 0 if mode == "none" else min(1, called)
             if count[0] != want:
                 return fail("action-count", i, f"action ran {count[0]} times after {called} dispose calls")
@@ -311,37 +401,51 @@ def hist_c25(case):
         virtual = case.get("on", "virtual") == "virtual"
         sched = TestScheduler() if virtual else ImmediateScheduler()
         d = ScheduledDisposable(sched, item)
+        if item.behave == "reenter":
+            item.hook = d.dispose  # the resource's teardown disposes its own wrapper again
         pending = 0
         ran = False
+        raised_once = False  # the wrapped dispose() raised: only "at most once" is judged from then on
         _CTX[0] = None
         try:
             for i, c in enumerate(cmds):
-                if c[0] == "dispose":
-                    if not virtual:
-                        _CTX[0] = "in-scheduler"  # immediate: the scheduler runs the action inside schedule()
-                    d.dispose()
+                try:
+                    if c[0] == "dispose":
+                        pending += 1
+                        if not virtual:
+                            _CTX[0] = "in-scheduler"  # immediate: the scheduler runs the action inside schedule()
+                            ran = True
+                        d.dispose()
+                    elif c[0] == "run" and virtual:
+                        _CTX[0] = "in-scheduler"
+                        if pending:
+                            ran = True
+                        sched.advance_by(c[1] if len(c) > 1 else 1)
+                except ItemRaise:
+                    if item.behave != "raises" or item.n == 0:
+                        raise
+                    raised_once = True
+                    classes.add("item-raised")
+                    if virtual:
+                        sched.stop()  # harness recovery: an exception escaping advance_by leaves the scheduler enabled
+                finally:
                     _CTX[0] = None
-                    pending += 1
-                    if not virtual:
-                        ran = True
-                elif c[0] == "run" and virtual:
-                    _CTX[0] = "in-scheduler"
-                    sched.advance_by(c[1] if len(c) > 1 else 1)
-                    _CTX[0] = None
-                    if pending:
-                        ran = True
+                if item.n > 1:
+                    return fail("wrapped-disposed-twice" + (":" + item.behave if item.behave else ""), i, f"wrapped {item!r} (dispose calls {pending})")
                 want = 1 if ran else 0
                 if item.n != want:
                     clause = "disposed-off-scheduler" if (item.n == 1 and not ran) else ("wrapped-count" + (":falsy" if item.__class__ is Empty else ""))
                     return fail(clause, i, f"wrapped {item!r} expected {want} (dispose calls {pending}, scheduler ran={ran})")
                 if item.ctx and item.ctx[0] != "in-scheduler":
                     return fail("disposed-off-scheduler", i, "wrapped disposed outside a scheduler action")
-                if ran and d.is_disposed is not True:
+                if ran and not raised_once and d.is_disposed is not True:
                     return fail("is_disposed-after-run", i, f"is_disposed={d.is_disposed!r}")
         finally:
             _CTX[0] = None
         if item.__class__ is Empty:
             classes.add("falsy-item")
+        if item.behave:
+            classes.add(item.behave + "-item")
         classes.add("virtual" if virtual else "immediate")
         return OK(pending >= 1 and ran, sorted(classes))
     raise HarnessError(f"bad cls {cls}")
